@@ -113,7 +113,7 @@ pub struct Generated {
 
 pub fn generate(b: &Board, mask: BitBoard) -> Generated {
     let mut g = Generated { moves: Vec::with_capacity(64), batches: 0, empty_batch: false, returned: false, len_mismatch: false };
-    let ret = b.generate_moves_for(mask, |pm| {
+    let mut listener = |pm: PieceMoves| {
         g.batches += 1;
         if pm.is_empty() {
             g.empty_batch = true;
@@ -126,7 +126,9 @@ pub fn generate(b: &Board, mask: BitBoard) -> Generated {
             g.len_mismatch = true;
         }
         false
-    });
+    };
+    // the unmasked entry point is a function of its own: use it whenever the mask is full
+    let ret = if mask == BitBoard::FULL { b.generate_moves(&mut listener) } else { b.generate_moves_for(mask, &mut listener) };
     g.returned = ret;
     g
 }
